@@ -296,10 +296,12 @@ def workload(ctx, repo):
                     "via": "dumper" if k % 3 == 0 else "point"}
         elif v < 7:
             case = {"op": "roundtrip", "p": make_point(rng),
-                    "fmt": determining_format(rng)}
+                    "fmt": determining_format(rng),
+                    "assumed": list(gen.rand_offset(rng))}
         elif v == 7:
             case = {"op": "epoch", "p": make_point(rng),
-                    "fmt": rng.choice(("%s", "epoch=%s", "%s s"))}
+                    "fmt": rng.choice(("%s", "epoch=%s", "%s s")),
+                    "assumed": list(gen.rand_offset(rng))}
         elif v == 8:
             part, fmt = rng.choice((("year", "%Y"), ("month", "%Y-%m"),
                                     ("day", "%F"), ("day", "%Y%j"),
